@@ -85,17 +85,10 @@ func c31Init(string) error {
 			}
 		}
 	}
-	// ethx: a day directory whose metadata is truncated -> the query fails while executing
-	n := 0
-	_ = filepath.Walk(filepath.Join(dir, "ethx"), func(p string, fi os.FileInfo, err error) error {
-		if err == nil && !fi.IsDir() && filepath.Base(p) == ".blockmeta" {
-			n++
-			return os.Truncate(p, 5)
-		}
-		return nil
-	})
-	if n == 0 {
-		return errors.New("c31: no .blockmeta written")
+	// ethx: an entry that is not a year next to the year directories -> the query fails while executing
+	// (walking the interface's database). A damaged .blockmeta no longer does: such a day is skipped.
+	if err := os.Mkdir(filepath.Join(dir, "ethx", "not-a-year"), 0o755); err != nil {
+		return err
 	}
 	return nil
 }
